@@ -483,8 +483,8 @@ func checkC11(c *core.Ctx) {
 	var traces []*Trace
 	nontrivial := 0
 	for fi, name := range []string{"A", "B", "C"} {
-		mcCfg := fmt.Sprintf("SPECIFICATION Spec\nCONSTANTS\n  Sizes <- RT_%s\n  Cuts <- RT_Cuts\n  PersistentReader = %s\nVIEW View\nINVARIANTS NothingLost InOrderOnce\nPROPERTY AllDelivered\nCHECK_DEADLOCK FALSE\n", name, persistent)
-		genCfg := fmt.Sprintf("INIT Init\nNEXT Next\nCONSTANTS\n  Sizes <- RT_%s\n  Cuts <- RT_Cuts\n  PersistentReader = %s\nINVARIANT Emit\nCHECK_DEADLOCK FALSE\n", name, persistent)
+		mcCfg := fmt.Sprintf("SPECIFICATION Spec\nCONSTANTS\n  Sizes <- RT_%s\n  Cuts <- RT_Cuts\n  PersistentReader = %s\n  BreakAllowed = FALSE\nVIEW View\nINVARIANTS NothingLost InOrderOnce\nPROPERTY AllDelivered\nCHECK_DEADLOCK FALSE\n", name, persistent)
+		genCfg := fmt.Sprintf("INIT Init\nNEXT Next\nCONSTANTS\n  Sizes <- RT_%s\n  Cuts <- RT_Cuts\n  PersistentReader = %s\n  BreakAllowed = FALSE\nINVARIANT Emit\nCHECK_DEADLOCK FALSE\n", name, persistent)
 		_ = os.WriteFile(filepath.Join(dir, "MC_RT_"+name+".cfg"), []byte(mcCfg), 0o644)
 		_ = os.WriteFile(filepath.Join(dir, "Gen_RT_"+name+".cfg"), []byte(genCfg), 0o644)
 		if !os_skipMC() {
